@@ -181,7 +181,10 @@ func runC02(c *vkit.Ctx, api string, stored, received Val, edit string, om offMo
 	t := vkit.NewT("TestP")
 	res := s.Step(t, opS, vkit.Mode{})
 	s.EndExec(t)
-	if len(res.Problems) > 0 || res.Got != vkit.Added {
+	// premise: the stored value was recorded (outcome `added`). Whether it is stored
+	// faithfully is NOT part of the premise - storage that conflates two values is
+	// exactly what the second call must expose.
+	if res.Got != vkit.Added {
 		c.Count("premise_record_failed", 1)
 		c.Note("record step not judged: " + fmt.Sprint(res.Problems))
 		return
